@@ -110,6 +110,13 @@ func (w *World) verifyFunc(sel string, con *Contract) *FuncResult {
 		for _, g := range con.Ghosts {
 			c0.clause = &Clause{File: con.File, Line: con.Line, Text: g.Init}
 			var t Term
+			if gs, gty := ex.ghostSort(c0, g.Sort); gty != nil {
+				if ex.ghostTypes == nil {
+					ex.ghostTypes = map[string]types.Type{}
+				}
+				ex.ghostTypes[g.Name] = gty
+				g.Sort = gs
+			}
 			if g.Sort == SBool {
 				t = ex.safeFormula(c0, g.Init)
 			} else if strings.HasPrefix(g.Init, "const ") {
@@ -118,6 +125,14 @@ func (w *World) verifyFunc(sel string, con *Contract) *FuncResult {
 				t = ex.constArr(g.Sort, v.T)
 			} else {
 				t = ex.safeExpr(c0, g.Init).T
+			}
+			if t.S == nilVal.S && g.Sort != SVal {
+				switch g.Sort {
+				case SSlc:
+					t = mkSlc(intLit(0), intLit(0), intLit(0), intLit(0))
+				case SInt:
+					t = intLit(0)
+				}
 			}
 			st.ghosts[g.Name] = Term{S: t.S, Sort: g.Sort}
 			st.gsorts[g.Name] = g.Sort
